@@ -514,6 +514,7 @@ func runC01(c *Ctx, tier string) {
 
 	// ---- K1
 	runC01K1(c)
+	runDecodedStringsOwnBytes(c, "C01-U1")
 }
 
 func sameWork(resultChVal, workVal ssa.Value) bool {
